@@ -115,11 +115,21 @@ def build_layout(m):
     for r in m["regions"]:
         reg = RegionLayout(r["id"], np.asarray(r["polygon"], dtype=np.float64), r["type"])
         reg.transcription = r["text"]
-        for l in r["lines"]:
-            reg.lines.append(TextLine(id=l["id"], index=l["index"], baseline=np.asarray(l["baseline"], dtype=np.float64),
-                                      polygon=np.asarray(l["polygon"], dtype=np.float64),
-                                      heights=list(l["heights"]) if l["heights"] is not None else None,
-                                      transcription=l["transcription"], transcription_confidence=l["conf"]))
+        for k, l in enumerate(r["lines"]):
+            # what the stages of the pipeline leave on a line differs in container and number type: float64 / float32 arrays
+            # (or int64 when every coordinate is whole), heights as list / tuple / array, numpy scalars for index and confidence
+            rep = (len(m["id"]) + len(r["id"]) + k) % 4
+            whole = all(float(x) == int(x) for p_ in l["baseline"] + l["polygon"] for x in p_)
+            f32 = all(float(np.float32(x)) == float(x) for p_ in l["baseline"] + l["polygon"] for x in p_)
+            dt = np.int64 if (rep == 1 and whole) else (np.float32 if (rep == 2 and f32) else np.float64)
+            heights = None
+            if l["heights"] is not None:
+                heights = [list, tuple, lambda h: np.asarray(h, dtype=np.float64), list][rep](l["heights"])
+            index = l["index"] if (l["index"] is None or rep != 3) else np.int64(l["index"])
+            conf = l["conf"] if (l["conf"] is None or rep != 2) else np.float64(l["conf"])
+            reg.lines.append(TextLine(id=l["id"], index=index, baseline=np.asarray(l["baseline"], dtype=dt),
+                                      polygon=np.asarray(l["polygon"], dtype=dt), heights=heights,
+                                      transcription=l["transcription"], transcription_confidence=conf))
         pl.regions.append(reg)
     if m["reading_order"] is not None:
         pl.reading_order = dict(m["reading_order"])
